@@ -212,6 +212,8 @@ where
         // Get next tokens (lexer should skip ws if configured to do so).
         // If error run layout_parser. If there is layout try next tokens again.
         // If no next token can be returned report error returned from the lexer.
+        // Layout in front of a token may be found in several pieces.
+        let mut layout_start = None;
         loop {
             let expected_tokens = self.definition.expected_token_kinds(context.state());
             let mut next_tokens = self.lexer.next_tokens(context, input, expected_tokens);
@@ -245,6 +247,7 @@ where
                 if let Some(layout_parser) = layout_parser {
                     log!("\n{}", "*** Parsing layout".paint(WARN_BOLD));
                     let current_state = context.state();
+                    let layout_position = context.position().pos;
                     context.set_state(S::default_layout().unwrap());
                     let p = layout_parser.parse_with_context(context, input);
                     log!("Layout is {p:?}");
@@ -252,7 +255,8 @@ where
                     if let Ok(Some(layout)) = p {
                         if layout.len() > 0 {
                             log!("Skipping layout: {layout:?}");
-                            context.set_layout_ahead(Some(layout));
+                            let start = *layout_start.get_or_insert(layout_position);
+                            context.set_layout_ahead(Some(&input[start..context.position().pos]));
                             log!("\n{}", "*** Parsing content".paint(WARN_BOLD));
                             continue;
                         }
